@@ -53,6 +53,15 @@ class C02(Check):
             cit = [["c", ["u", 16, "s"], "K%d" % i, str(i), [i, 1]] for i in range(nconst)]
             root["defs"].append({"name": rn + ".TagK", "ver": [1, 0], "port": None, "ext": "dsdl", "dep": False,
                                  "secs": [{"union": True, "hdr": None, "items": vit + cit, "seal": "sealed"}]})
+        if rng.random() < 0.2 and (rn + ".ApxU").lower() not in {d["name"].lower() for d in root["defs"]}:
+            # a union whose variants have different but approximately equal length sets (same min, max and residues mod 32), the
+            # sparser one first, followed by another field in a host structure
+            a1, a2 = rng.choice([(["var", ["f", 64, "s"], 1], ["var", ["f", 32, "s"], 2]), (["var", ["u", 64, "s"], 1], ["var", ["u", 32, "s"], 2]), (["var", ["u", 64, "t"], 2], ["var", ["u", 32, "t"], 4])])
+            vs = [["f", a1, "wide"], ["f", a2, "narrow"]] + ([["f", ["u", 8, "s"], "tiny"]] if rng.random() < 0.4 else [])
+            root["defs"].append({"name": rn + ".ApxU", "ver": [1, 0], "port": None, "ext": "dsdl", "dep": False,
+                                 "secs": [{"union": True, "hdr": None, "items": vs, "seal": "sealed"}]})
+            root["defs"].append({"name": rn + ".ApxUHost", "ver": [1, 0], "port": None, "ext": "dsdl", "dep": False,
+                                 "secs": [{"union": False, "hdr": None, "items": [["f", ["ref", rn + ".ApxU", 1, 0], "sample"], ["f", ["u", 16, "s"], "status"], ["f", ["arr", ["ref", rn + ".ApxU", 1, 0], 2], "pair"], ["f", ["u", 3, "s"], "z"]], "seal": "sealed"}]})
         nv = rng.choice(VARIANTS)
         if (rn + ".Tag").lower() not in used:
             vitems = [["f", rng.choice([["bool"], ["u", 8, "s"], ["u", 13, "t"], ["var", ["u", 8, "s"], 2]]), "v%d" % i] for i in range(nv)]
